@@ -59,7 +59,7 @@ def connectivity(obj):
             'children': [(len(c.inPorts), len(c.outPorts)) for c in children],
             'child_names': [type(c).__name__ + ':' + c.name for c in children],
             'wires': wl,
-            '_wire_id': {k: n for n, k in enumerate(order)}, '_pin_of_port': pin_of_port, '_elem_of_obj': elem_of_obj}
+            '_children': children, '_wire_id': {k: n for n, k in enumerate(order)}, '_pin_of_port': pin_of_port, '_elem_of_obj': elem_of_obj}
 
 
 def leaf_crosscheck(obj, conn):
@@ -149,6 +149,32 @@ def dump_layout(s, conn):
                          'row': int(getattr(x, 'r', -1) if getattr(x, 'r', None) is not None else -1),
                          'col': int(getattr(x, 'c', -1) if getattr(x, 'c', None) is not None else -1),
                          'x': int(x.x), 'y': int(x.y), 'w': int(x.getWidth()), 'h': int(x.getHeight())})
+    # where each drawn instance / port symbol puts each pin of the thing it stands for (symbol geometry, asked per port —
+    # independent of the nets): (symbol id, pin, x, y)
+    pins = []
+    children = conn['_children']
+
+    def pos(x, f, port):
+        try:
+            d = f(port); return (int(x.x + d[0]), int(x.y + d[1]))
+        except Exception:
+            return None           # the symbol cannot place this pin: no entry (a net ending there is then rejected)
+    seen = set()
+    for c in range(nc):
+        for r in range(nr):
+            x = s.symbol_matrix[r, c]
+            if x is None or id(x) in seen: continue
+            seen.add(id(x))
+            o = getattr(x, 'obj', None); e = conn['_elem_of_obj'].get(id(o)) if o is not None else None
+            if e is None or symbol_kind(x) not in ('KInst', 'KIn', 'KOut'): continue
+            todo = []
+            if e[0] == 'ch':
+                todo = [(x.getPortSinkPos, pt) for pt in children[e[1]].inPorts] + [(x.getPortSourcePos, pt) for pt in children[e[1]].outPorts]
+            elif e[0] == 'in': todo = [(x.getPortSourcePos, o)]
+            else: todo = [(x.getPortSinkPos, o)]
+            for f, pt in todo:
+                xy = pos(x, f, pt)
+                if xy is not None: pins.append({'sym': sid[id(x)], 'pin': conn['_pin_of_port'][id(pt)], 'x': xy[0], 'y': xy[1]})
     n_drawn = len(sid)
     undrawn = {}
     nch = len(conn['children'])
@@ -168,12 +194,19 @@ def dump_layout(s, conn):
         else:
             if k not in extra_w: extra_w[k] = len(conn['wires']) + len(extra_w)
             wid = extra_w[k]
+        path = None
+        try:
+            if n.x is not None and len(n.x) >= 1 and len(n.y) == len(n.x):
+                path = ((int(n.x[0]), int(n.y[0])), (int(n.x[-1]), int(n.y[-1])))
+        except Exception:
+            path = None
         nets.append({'wire': wid, 'src': end(n.source, n.sourcePort), 'snk': end(n.sink, n.sinkPort),
+                     'from': path[0] if path else None, 'to': path[1] if path else None,
                      'text': '%s: %s.%s -> %s.%s' % (n.wire.getFullPath(), getattr(n.source, 'name', '?'), n.sourcePort.name if n.sourcePort is not None else None,
                                                      getattr(n.sink, 'name', '?'), n.sinkPort.name if n.sinkPort is not None else None)})
     in_matrix = set(id(x) for x in s.symbol_matrix.flatten() if x is not None)
     lost = ['%s %s' % (type(o).__name__, getattr(o, 'name', '?')) for o in s.objs if id(o) not in in_matrix]
-    return {'syms': syms, 'nets': nets, 'undrawn_net_ends': undrawn, 'objs_not_in_matrix': lost, 'n_drawn': n_drawn}
+    return {'syms': syms, 'nets': nets, 'pins': pins, 'undrawn_net_ends': undrawn, 'objs_not_in_matrix': lost, 'n_drawn': n_drawn}
 
 
 # ---------------------------------------------------------------------------------------------- Coq terms
@@ -197,8 +230,11 @@ def circuit_term(conn):
 def layout_term(lay):
     ss = '; '.join('Sym %d %s %s %s %s %s %s %s %s' % (s['id'], s['kind'] if s['kind'] in KINDS else 'KOther', _opt(s['for'], _elem),
                                                       _z(s['row']), _z(s['col']), _z(s['x']), _z(s['y']), _z(s['w']), _z(s['h'])) for s in lay['syms'])
-    ns = '; '.join('Net %d (End %d %s) (End %d %s)' % (n['wire'], n['src'][0], _opt(n['src'][1], _pin), n['snk'][0], _opt(n['snk'][1], _pin)) for n in lay['nets'])
-    return '(Lay [%s] [%s])' % (ss, ns)
+    _pt = lambda xy: '(%s, %s)' % (_z(xy[0]), _z(xy[1]))
+    ns = '; '.join('Net %d (End %d %s) (End %d %s) %s %s' % (n['wire'], n['src'][0], _opt(n['src'][1], _pin), n['snk'][0], _opt(n['snk'][1], _pin),
+                                                            _opt(n.get('from'), _pt), _opt(n.get('to'), _pt)) for n in lay['nets'])
+    ps = '; '.join('PinAt %d %s %s %s' % (a['sym'], _pin(a['pin']), _z(a['x']), _z(a['y'])) for a in lay.get('pins', []))
+    return '(Lay [%s] [%s] [%s])' % (ss, ns, ps)
 
 KINDS = ('KInst', 'KIn', 'KOut', 'KInOut', 'KPass', 'KFbStart', 'KFbStop', 'KMissing')
 
